@@ -2,96 +2,111 @@
 C04 — continued simulation: absolute increasing time axis, piecewise-exact states.
 
 All theorems are about `Mxl.C04.run` / `Mxl.C04.step` (Model/C04.lean), the functions the
-driver executes, for an arbitrary state type `σ`, flow `S.flow` and override `S.ov`.
+driver executes, for an arbitrary state type `σ`, flow `S.flow` and override `S.ov`, and for
+**every** history of simulate / time-course / steady-state / parameter-update / override / clear
+calls (no side condition on the history since the repair of F-C04-2).
 `Spec` is the absolute-time specification machine of the same file.
 
-The unchanged code violates the property on histories in which `simulate_to_steady_state`
-meets an integrator that has advanced, or is followed by another simulation (F-C04-2):
-`*_full_fails` are the negations with concrete witnesses, `*_partial` the statements under
-the decidable hypothesis `okHist`.
+The model reads its comparison operators, `skipfirst` flags, statement orders and defaults from
+Generated/C04Facts.lean (written by translate/c04.py from the current simulator.py / int_scipy.py);
+`C04_source_facts` lists the values the proofs rest on.
 -/
 import MxlVerif.Lemmas.C04Hist
 namespace Mxl.C04
 
-/-! ## Refinement: outside F-C04-2 the Simulator *is* the absolute-time machine -/
+/-! ## The facts of the current source the proofs rest on -/
 
-/-- For every history accepted by `okHist`, the implementation machine (integrator restart
+/-- what translate/c04.py has read from simulator.py / int_scipy.py: the refusal tests are `<=`, the overlap
+    filter keeps `>=`, both stand before the shift subtraction; `skipfirst` is passed by simulate / time course and
+    not by the steady-state run; `integrate` asks for `steps + 1` (default 100) points; `integrate_time_course`
+    prepends `t0` when the first point differs; the steady-state search does not reset, starts at `t0`, advances
+    `t0` / `y0` on success and steps by a positive `step_size`; `update_variables` re-reads the last row only when
+    the simulation advanced; `clear_results` resets shift and errors; `_handle_simulation_results` has the
+    modelled shape. -/
+theorem C04_source_facts :
+    Gen.simulateRefusal = .le ∧ Gen.timeCourseRefusal = .le ∧ Gen.timeCourseKeep = .ge ∧
+    Gen.simulateChecksBeforeShift = true ∧ Gen.timeCourseChecksBeforeShift = true ∧
+    Gen.simulateSkipfirst = true ∧ Gen.timeCourseSkipfirst = true ∧ Gen.steadySkipfirst = false ∧
+    Gen.stepsPlus = 1 ∧ 2 ≤ Gen.defaultPoints ∧ Gen.prependCmp = .ne ∧
+    Gen.steadyResets = false ∧ Gen.steadyStartsAtT0 = true ∧ Gen.steadyAdvances = true ∧ 0 < Gen.stepSize ∧
+    Gen.updVarsKeepsAtSameTime = true ∧ Gen.clearResetsShift = true ∧ Gen.clearResetsErrors = true ∧
+    Gen.handleShape = true := by decide
+
+/-! ## Refinement: the Simulator *is* the absolute-time machine -/
+
+/-- For every history, the implementation machine (integrator restart
     point, time shift, "prepend t0", `skipfirst`, comparisons, overlap filter) and the
     absolute-time specification machine produce the same per-call outcomes (accepted / exception
     class), the same recorded segments (times, states, parameters), the same parameter values and
     the same failure flag. -/
-theorem C04_refines_spec_partial {σ} (S : Sys σ) (p : Pars) (y0 : σ) (ops : List Op)
-    (hok : okHist HSt.start ops = true) :
+theorem C04_refines_spec {σ} (S : Sys σ) (p : Pars) (y0 : σ) (ops : List Op) :
     (run S (Sim.init p y0) ops).2 = (Spec.run S (Spec.init p y0) ops).2 ∧
     (after S p y0 ops).segs = (specAfter S p y0 ops).segs ∧
     (after S p y0 ops).pars = (specAfter S p y0 ops).pars ∧
     (decide ((after S p y0 ops).errors > 0)) = (specAfter S p y0 ops).failed := by
-  obtain ⟨h1, h', r⟩ := run_refines S ops HSt.start _ _ (Rel.init p y0) hok
+  obtain ⟨h1, r⟩ := run_refines S ops _ _ (Rel.init p y0)
   exact ⟨h1, r.segs, r.pars, r.failed⟩
+
+/-- The integrator's state machine (`Scipy.t0` / `y0` through `reset`-free `integrate`, `integrate_time_course`,
+    `integrate_to_steady_state`, and re-initialisation by `update_variables` / `clear_results`): after every history
+    the integrator's clock is the time reached minus the time shift, and its state is the current state; the shift
+    never exceeds the time reached. -/
+theorem C04_integrator_clock {σ} (S : Sys σ) (p : Pars) (y0 : σ) (ops : List Op) :
+    (after S p y0 ops).integ.t0 + (after S p y0 ops).shift.getD 0 = (specAfter S p y0 ops).now ∧
+    (after S p y0 ops).integ.y0 = (specAfter S p y0 ops).cur ∧
+    reached? (after S p y0 ops).segs = .ok ((after S p y0 ops).integ.t0 + (after S p y0 ops).shift.getD 0) ∧
+    (∀ d, (after S p y0 ops).shift = some d → d ≤ (specAfter S p y0 ops).now) := by
+  have r := (run_refines S ops _ _ (Rel.init p y0)).2
+  refine ⟨r.sim.1, r.sim.2, ?_, r.shift_le⟩
+  show reached? (run S (Sim.init p y0) ops).1.segs = _
+  rw [r.reached, ← r.sim.1]
+  rfl
 
 /-! ## The time axis -/
 
 /-- The specification machine's axis is strictly increasing after every history whatsoever
-    (unsorted or illegal arguments are refused), provided the steady-state solver reports a
-    time later than its start. -/
-theorem C04_spec_axis_increasing {σ} (S : Sys σ) (p : Pars) (y0 : σ) (ops : List Op)
-    (hpos : ops.all steadyPos = true) :
+    (unsorted or illegal arguments are refused). -/
+theorem C04_spec_axis_increasing {σ} (S : Sys σ) (p : Pars) (y0 : σ) (ops : List Op) :
     (times (specAfter S p y0 ops).segs).Pairwise (· < ·) :=
-  (Spec.run_axis S ops _ (Spec.Axis.init p y0) hpos).sorted
+  (Spec.run_axis S ops _ (Spec.Axis.init p y0)).sorted
 
-/-- The accumulated result of the Simulator has a strictly increasing time axis after every
-    history outside the F-C04-2 class. -/
-theorem C04_axis_increasing_partial {σ} (S : Sys σ) (p : Pars) (y0 : σ) (ops : List Op)
-    (hok : okHist HSt.start ops = true) :
+/-- The accumulated result of the Simulator has a strictly increasing time axis after every history. -/
+theorem C04_axis_increasing {σ} (S : Sys σ) (p : Pars) (y0 : σ) (ops : List Op) :
     (times (after S p y0 ops).segs).Pairwise (· < ·) := by
-  rw [(C04_refines_spec_partial S p y0 ops hok).2.1]
-  exact C04_spec_axis_increasing S p y0 ops (okHist_steadyPos ops _ hok)
+  rw [(C04_refines_spec S p y0 ops).2.1]
+  exact C04_spec_axis_increasing S p y0 ops
 
-/-- F-C04-2, witness 1: a simulation after a steady-state run restarts at time 0 while the axis
-    continues from the reported steady-state time (axis `[200, 150, 300]`).  So the unrestricted
-    statement is false of the code. -/
-theorem C04_axis_increasing_full_fails :
-    ¬ ∀ (ops : List Op), ops.all steadyPos = true →
-        (times (after termSys [] STerm.init ops).segs).Pairwise (· < ·) := by
-  intro h
-  have h1 := h [.steady (some 200), .simulate 300 (some 2)] (by decide)
-  rw [← strictInc_iff] at h1
-  revert h1
-  decide +kernel
-
-/-- F-C04-2, witness 2: a steady-state run after a simulation reports a time measured from the
-    integrator's reset point, not from the time reached (axis `[0, 150, 300, 200]`). -/
-theorem C04_axis_increasing_full_fails' :
-    ¬ (times (after termSys [] STerm.init [.simulate 300 (some 2), .steady (some 200)]).segs).Pairwise
-        (· < ·) := by
-  rw [← strictInc_iff]
+/-- the two histories that witnessed F-C04-2 before the repair now have increasing axes:
+    `steady; simulate(300, 2)` gives `[100, 200, 300]`, `simulate(300, 2); steady` gives `[0, 150, 300, 400]` -/
+theorem C04_steady_witnesses_repaired :
+    times (after termSys [] STerm.init [.steady (some 0), .simulate 300 (some 2)]).segs = [100, 200, 300] ∧
+    times (after termSys [] STerm.init [.simulate 300 (some 2), .steady (some 0)]).segs = [0, 150, 300, 400] := by
   decide +kernel
 
 /-! ## Requested points appear exactly once -/
 
-/-- `simulate_time_course(pts)` accepted after any history outside F-C04-2: every requested
+/-- `simulate_time_course(pts)` accepted after any history: every requested
     point later than the time reached is on the axis afterwards exactly once. -/
-theorem C04_requested_once_partial {σ} (S : Sys σ) (p : Pars) (y0 : σ) (ops : List Op) (pts : List Rat)
-    (hok : okHist HSt.start (ops ++ [.timeCourse pts]) = true)
+theorem C04_requested_once {σ} (S : Sys σ) (p : Pars) (y0 : σ) (ops : List Op) (pts : List Rat)
     (hlive : (after S p y0 ops).errors = 0)
     (hacc : (step S (after S p y0 ops) (.timeCourse pts)).2 = none)
     (T : Rat) (hT : reached? (after S p y0 ops).segs = .ok T) :
     ∀ t ∈ pts, T < t → (times (after S p y0 (ops ++ [.timeCourse pts])).segs).count t = 1 := by
-  obtain ⟨h1, h2, r, he, r', _, hspec, hax⟩ := last_step S p y0 ops _ hok
+  obtain ⟨r, he, r', _, hspec, hax⟩ := last_step S p y0 ops _
   rw [he] at hacc
   obtain ⟨g', tEnd, c, hmem, _⟩ := continues_of S _ _ (Or.inr ⟨pts, rfl⟩) (live_of r hlive) hacc
   intro t ht hlt
   rw [r'.segs, hspec]
   exact c.once hax t ((hmem pts rfl t).mpr ⟨ht, by rw [← now_of r T hT]; exact hlt⟩)
 
-/-- `simulate(t_end, steps)` accepted after any history outside F-C04-2: `t_end` is on the
+/-- `simulate(t_end, steps)` accepted after any history: `t_end` is on the
     axis afterwards exactly once. -/
-theorem C04_simulate_end_once_partial {σ} (S : Sys σ) (p : Pars) (y0 : σ) (ops : List Op) (t : Rat)
-    (n : Option Nat) (hok : okHist HSt.start (ops ++ [.simulate t n]) = true)
+theorem C04_simulate_end_once {σ} (S : Sys σ) (p : Pars) (y0 : σ) (ops : List Op) (t : Rat)
+    (n : Option Nat)
     (hlive : (after S p y0 ops).errors = 0)
     (hacc : (step S (after S p y0 ops) (.simulate t n)).2 = none) :
     (times (after S p y0 (ops ++ [.simulate t n])).segs).count t = 1 := by
-  obtain ⟨h1, h2, r, he, r', _, hspec, hax⟩ := last_step S p y0 ops _ hok
+  obtain ⟨r, he, r', _, hspec, hax⟩ := last_step S p y0 ops _
   rw [he] at hacc
   obtain ⟨g', tEnd, c, _, hend⟩ := continues_of S _ _ (Or.inl ⟨t, n, rfl⟩) (live_of r hlive) hacc
   rw [r'.segs, hspec]
@@ -104,14 +119,14 @@ theorem C04_simulate_end_once_partial {σ} (S : Sys σ) (p : Pars) (y0 : σ) (op
 /-- `simulate(t_end)` on a live simulator raises ValueError iff `t_end ≤` the time reached
     (absolute time, also after `update_variable(s)`); a call that raises leaves the results
     unchanged. -/
-theorem C04_refusal_iff_partial {σ} (S : Sys σ) (p : Pars) (y0 : σ) (ops : List Op) (t : Rat)
-    (n : Option Nat) (hok : okHist HSt.start (ops ++ [.simulate t n]) = true)
+theorem C04_refusal_iff {σ} (S : Sys σ) (p : Pars) (y0 : σ) (ops : List Op) (t : Rat)
+    (n : Option Nat)
     (hlive : (after S p y0 ops).errors = 0)
     (T : Rat) (hT : reached? (after S p y0 ops).segs = .ok T) :
     ((step S (after S p y0 ops) (.simulate t n)).2 = some .valueError ↔ t ≤ T) ∧
     ((step S (after S p y0 ops) (.simulate t n)).2 ≠ none →
       (after S p y0 (ops ++ [.simulate t n])).segs = (after S p y0 ops).segs) := by
-  obtain ⟨h1, h2, r, he, r', _, hspec, _⟩ := last_step S p y0 ops _ hok
+  obtain ⟨r, he, r', _, hspec, _⟩ := last_step S p y0 ops _
   rw [he, now_of r T hT]
   refine ⟨Spec.simulate_refusal S _ t n (live_of r hlive), ?_⟩
   intro hne
@@ -120,39 +135,36 @@ theorem C04_refusal_iff_partial {σ} (S : Sys σ) (p : Pars) (y0 : σ) (ops : Li
 
 /-- the same for `simulate_time_course` with a strictly increasing array: refused iff its last
     point is not later than the time reached -/
-theorem C04_refusal_iff_timeCourse_partial {σ} (S : Sys σ) (p : Pars) (y0 : σ) (ops : List Op)
-    (pts : List Rat) (last : Rat) (hok : okHist HSt.start (ops ++ [.timeCourse pts]) = true)
+theorem C04_refusal_iff_timeCourse {σ} (S : Sys σ) (p : Pars) (y0 : σ) (ops : List Op)
+    (pts : List Rat) (last : Rat)
     (hlive : (after S p y0 ops).errors = 0)
     (hl : pts.getLast? = some last) (hp : pts.Pairwise (· < ·))
     (T : Rat) (hT : reached? (after S p y0 ops).segs = .ok T) :
     ((step S (after S p y0 ops) (.timeCourse pts)).2 = some .valueError ↔ last ≤ T) ∧
     ((step S (after S p y0 ops) (.timeCourse pts)).2 ≠ none →
       (after S p y0 (ops ++ [.timeCourse pts])).segs = (after S p y0 ops).segs) := by
-  obtain ⟨h1, h2, r, he, r', _, hspec, _⟩ := last_step S p y0 ops _ hok
+  obtain ⟨r, he, r', _, hspec, _⟩ := last_step S p y0 ops _
   rw [he, now_of r T hT]
   refine ⟨Spec.timeCourse_refusal S _ pts last (live_of r hlive) hl hp, ?_⟩
   intro hne
   rw [r'.segs, hspec, r.segs]
   exact congrArg Spec.segs (Spec.timeCourse_unchanged S _ pts hne)
 
-/-- under `okHist` the time reached is always defined (no empty frame is ever recorded) and is
+/-- the time reached is always defined (no empty frame is ever recorded) and is
     the specification machine's clock -/
-theorem C04_reached_defined_partial {σ} (S : Sys σ) (p : Pars) (y0 : σ) (ops : List Op)
-    (hok : okHist HSt.start ops = true) :
-    reached? (after S p y0 ops).segs = .ok (specAfter S p y0 ops).now := by
-  obtain ⟨_, h', r⟩ := run_refines S ops HSt.start _ _ (Rel.init p y0) hok
-  exact r.reached
+theorem C04_reached_defined {σ} (S : Sys σ) (p : Pars) (y0 : σ) (ops : List Op) :
+    reached? (after S p y0 ops).segs = .ok (specAfter S p y0 ops).now :=
+  (run_refines S ops _ _ (Rel.init p y0)).2.reached
 
 /-! ## Piecewise flow -/
 
-/-- An accepted `simulate` / `simulate_time_course` after any history outside F-C04-2 appends one
+/-- An accepted `simulate` / `simulate_time_course` after any history appends one
     segment: the flow from (time reached, current state) under the parameters in force, sampled on
     a strictly increasing grid that starts at the time reached (that first row is dropped unless the
     result was empty) and ends at the requested end, where the next segment will start.  "Current
     state" is the specification machine's `cur`: see `C04_cur_*` for what it is. -/
-theorem C04_piecewise_flow_partial {σ} (S : Sys σ) (p : Pars) (y0 : σ) (ops : List Op) (op : Op)
+theorem C04_piecewise_flow {σ} (S : Sys σ) (p : Pars) (y0 : σ) (ops : List Op) (op : Op)
     (hop : (∃ t n, op = .simulate t n) ∨ (∃ pts, op = .timeCourse pts))
-    (hok : okHist HSt.start (ops ++ [op]) = true)
     (hlive : (after S p y0 ops).errors = 0)
     (hacc : (step S (after S p y0 ops) op).2 = none) :
     ∃ g' tEnd, ((specAfter S p y0 ops).now :: g').Pairwise (· < ·) ∧ g'.getLast? = some tEnd ∧
@@ -163,7 +175,7 @@ theorem C04_piecewise_flow_partial {σ} (S : Sys σ) (p : Pars) (y0 : σ) (ops :
       (specAfter S p y0 (ops ++ [op])).now = tEnd ∧
       (specAfter S p y0 (ops ++ [op])).cur =
         S.flow (after S p y0 ops).pars (tEnd - (specAfter S p y0 ops).now) (specAfter S p y0 ops).cur := by
-  obtain ⟨h1, h2, r, he, r', _, hspec, _⟩ := last_step S p y0 ops _ hok
+  obtain ⟨r, he, r', _, hspec, _⟩ := last_step S p y0 ops _
   rw [he] at hacc
   obtain ⟨g', tEnd, c, _, _⟩ := continues_of S _ _ hop (live_of r hlive) hacc
   obtain ⟨hs, hnow, hcur, _⟩ := c.rows
@@ -214,18 +226,64 @@ theorem C04_flow_composition {σ} (S : Sys σ) (hS : IsFlow S) (a : Spec σ) (t1
     rw [this, hS.add _ _ _ _ (by grind) (by grind)]
   · simp only [Spec.simulate, hf, e1, e2, e3, k1, k2, k, Spec.record, if_false, Bool.false_eq_true]
 
+/-! ## Steady-state runs -/
+
+/-- `simulate_to_steady_state` on a live simulator after any history is never refused; when the solver's loop
+    stops in iteration `k < max_steps` it appends exactly one row, at (time reached + `step_size·(k+1)`), a time
+    later than every recorded one, holding the flow from the current state under the parameters in force, and
+    the next call continues from there; otherwise (`NoSteadyState`) nothing is recorded and the simulator is
+    failed until `clear_results`. -/
+theorem C04_steady_continues {σ} (S : Sys σ) (p : Pars) (y0 : σ) (ops : List Op) (res : Option Nat)
+    (hlive : (after S p y0 ops).errors = 0) :
+    (step S (after S p y0 ops) (.steady res)).2 = none ∧
+    (∀ k, steadyIter res = some k →
+      0 < steadyDur k ∧
+      (after S p y0 (ops ++ [.steady res])).segs = some (appendSeg (after S p y0 ops).segs
+        [((specAfter S p y0 ops).now + steadyDur k,
+          S.flow (after S p y0 ops).pars (steadyDur k) (specAfter S p y0 ops).cur)] (after S p y0 ops).pars false) ∧
+      (specAfter S p y0 (ops ++ [.steady res])).now = (specAfter S p y0 ops).now + steadyDur k ∧
+      (specAfter S p y0 (ops ++ [.steady res])).cur =
+        S.flow (after S p y0 ops).pars (steadyDur k) (specAfter S p y0 ops).cur) ∧
+    (steadyIter res = none →
+      (after S p y0 (ops ++ [.steady res])).segs = (after S p y0 ops).segs ∧
+      (after S p y0 (ops ++ [.steady res])).errors > 0) := by
+  obtain ⟨r, he, r', hafter, hspec, _⟩ := last_step S p y0 ops (.steady res)
+  have hf := live_of r hlive
+  refine ⟨?_, ?_, ?_⟩
+  · rw [he]; simp only [Spec.step, Spec.steady, hf, Bool.false_eq_true, if_false]
+    cases steadyIter res <;> rfl
+  · intro k hk
+    refine ⟨steadyDur_pos k, ?_, ?_, ?_⟩
+    · rw [r'.segs, hspec, r.segs, r.pars]
+      simp only [Spec.step, Spec.steady, hf, Bool.false_eq_true, if_false, hk]
+    · rw [hspec]; simp only [Spec.step, Spec.steady, hf, Bool.false_eq_true, if_false, hk]
+    · rw [hspec, r.pars]; simp only [Spec.step, Spec.steady, hf, Bool.false_eq_true, if_false, hk]
+  · intro hk
+    constructor
+    · rw [r'.segs, hspec, r.segs]
+      simp only [Spec.step, Spec.steady, hf, Bool.false_eq_true, if_false, hk]
+    · have := r'.failed
+      rw [hspec] at this
+      simp only [Spec.step, Spec.steady, hf, Bool.false_eq_true, if_false, hk] at this
+      simpa using this
+
+/-- a failed simulator (after `NoSteadyState`) ignores every simulating call: no exception, nothing recorded -/
+theorem C04_failed_is_inert {σ} (S : Sys σ) (s : Sim σ) (op : Op) (hf : s.errors > 0)
+    (hop : (∃ t n, op = .simulate t n) ∨ (∃ pts, op = .timeCourse pts) ∨ (∃ r, op = .steady r)) :
+    step S s op = (s, none) := by
+  rcases hop with ⟨t, n, rfl⟩ | ⟨pts, rfl⟩ | ⟨r, rfl⟩ <;> simp [step, simulate, timeCourse, steady, hf]
+
 /-! ## Non-vacuity -/
 
-/-- a history with an override, a parameter change, a refused call and a continued time course
-    is in the class the `_partial` theorems cover -/
-example : okHist HSt.start
-    [.simulate 2 (some 2), .updVars [("x", 1)], .updVars [("z", 3)], .updPars [("k", 2)],
-     .simulate 1 (some 2), .timeCourse [5/2, 9/2, 5], .clear, .steady (some 200),
-     .updVars [("x", 0)], .simulate 201 none] = true := by decide +kernel
-
-/-- and on it the model really records two segments with the axis 0,1,2 | 5/2,9/2,5 -/
+/-- a history with overrides, a parameter change, a refused call, a continued time course, a clear and steady-state
+    runs before and after simulations records the axis 0,1,2 | 5/2,9/2,5 | 105 | 106 -/
 example : times (after termSys [("k", 1/2)] STerm.init
-    [.simulate 2 (some 2), .updVars [("x", 1)], .updPars [("k", 2)], .timeCourse [5/2, 9/2, 5]]).segs
-    = [0, 1, 2, 5/2, 9/2, 5] := by decide +kernel
+    [.simulate 2 (some 2), .updVars [("x", 1)], .updPars [("k", 2)], .simulate 1 (some 2),
+     .timeCourse [5/2, 9/2, 5], .steady (some 0), .updVars [("z", 3)], .simulate 106 (some 1)]).segs
+    = [0, 1, 2, 5/2, 9/2, 5, 105, 106] := by decide +kernel
+
+/-- a steady-state run that does not converge within `max_steps` iterations fails the simulator -/
+example : (after termSys [] STerm.init [.steady (some 1000), .simulate 1 none]).errors = 1 ∧
+    (after termSys [] STerm.init [.steady (some 1000), .simulate 1 none]).segs = none := by decide +kernel
 
 end Mxl.C04
